@@ -361,15 +361,9 @@ func checkNoLeak(t failer, before map[string]int, label string) {
 // -----------------------------------------------------------------------------------------------------------------
 // misc
 
-// tmpDir makes a scratch directory (removed by the caller). WAL files are fsynced on every own vote; a memory-backed
-// directory keeps that cheap, so /dev/shm is preferred when it exists.
+// tmpDir makes a scratch directory under the per-process scratch root (see main_test.go); callers remove it.
 func tmpDir(t failer, pat string) string {
-	if st, err := os.Stat("/dev/shm"); err == nil && st.IsDir() {
-		if d, err := os.MkdirTemp("/dev/shm", "verif-"+pat); err == nil {
-			return d
-		}
-	}
-	d, err := os.MkdirTemp("", pat)
+	d, err := os.MkdirTemp(scratch(), pat)
 	if err != nil {
 		t.Fatalf("VERIF-INFRA: %v", err)
 	}
